@@ -383,6 +383,10 @@ fn p_build_inner(prefill: usize, hist: &[POp]) -> Result<Vec<usize>, (String, St
         unions: vec![],
     };
     let mut addrs: Addrs = HashMap::new();
+    // start states >= 10 000: the same pre-fill, and the alphabet's package names are interned already
+    // (so that version-set / solvable operations on two different names fit into short histories)
+    let names_first = prefill >= 10_000;
+    let prefill = prefill % 10_000;
     // prefill every arena with `prefill` junk items
     for i in 0..prefill {
         let n = format!("junk{i}");
@@ -404,6 +408,16 @@ fn p_build_inner(prefill: usize, hist: &[POp]) -> Result<Vec<usize>, (String, St
         r.solvs.push((0, i as u32));
         if so.0 as usize != r.solvs.len() - 1 {
             return Err(("dense-solvable".into(), "prefill".into()));
+        }
+    }
+    if names_first {
+        for n in P_NAMES {
+            let id = pool.intern_package_name(n.to_string());
+            if id.0 as usize != r.names.len() {
+                return Err(("dense-name".into(), format!("start state: name id {} not dense", id.0)));
+            }
+            r.name_ids.insert(n.to_string(), id.0);
+            r.names.push(n.to_string());
         }
     }
     p_check_all(&pool, &r, &mut addrs)?;
@@ -535,7 +549,7 @@ pub fn run_c18(ctx: &Ctx) -> i32 {
     ops.push(POp::Union(3));
     ops.push(POp::Union(9));
     // 128 + {3,4,7,8,15,16,..}: a chunk that was not pre-sized would reallocate right after these sizes
-    let prefills: Vec<usize> = vec![0, 126, 127, 128, 131, 132, 135, 136, 143, 144, 159, 160, 191, 192, 255, 256];
+    let prefills: Vec<usize> = vec![0, 126, 127, 128, 131, 132, 135, 136, 143, 144, 159, 160, 191, 192, 255, 256, 10_000, 10_125, 10_127];
     let results: Vec<(Acc, u64, u64)> = std::thread::scope(|sc| {
         let hs: Vec<_> = prefills
             .iter()
@@ -593,7 +607,7 @@ pub fn run_c18(ctx: &Ctx) -> i32 {
     let full_depth = if q { 4 } else { 5 };
     let full_results: Vec<Acc> = std::thread::scope(|sc| {
         let mut hs = vec![];
-        for pf in [0usize, 127] {
+        for pf in [0usize, 127, 10_000] {
             for (fi, first) in ops.iter().enumerate() {
                 let ops = ops.clone();
                 let first = *first;
